@@ -1086,3 +1086,50 @@ def c19(ck):
     ck.extra["binary_accepted"] = naccept
     if naccept < 10:
         raise ToolError("vacuity: the binary accepted almost nothing")
+
+
+# ------------------------------------------------------------------- C20
+@prop("C20")
+def c20(ck):
+    thorough = ck.tier == "thorough"
+    ck.rule = ("parse results recorded from parse_command / parse_address for: all 65536 addresses x 5 notations (decimal, 0x "
+               "lower, 0x upper digits, 0x zero-padded, zero-padded decimal) as bare tokens and behind command words in random "
+               "case and Unicode white space; a list of malformed / out-of-range / signed / non-ASCII numbers and command "
+               "lines; random Unicode lines; and Display renderings of disassemble() on random streams of complete "
+               "instructions at random start addresses incl. wrap-around; every record validated by TLC against "
+               "Debugger.tla (Permits / Addresses / Tiles with SM83!ILen); a record is a case")
+    nrand = 2000000 if thorough else 100000
+    shards = 4
+    files = []
+    from concurrent.futures import ThreadPoolExecutor
+    def rec(i):
+        p = os.path.join(rundir(), "dbg_%d.ndjson" % i)
+        gbv(["debug", "--out", p, "--random", nrand // shards, "--shard", i, "--shards", shards])
+        return p
+    with ThreadPoolExecutor(max_workers=shards) as ex:
+        files = list(ex.map(rec, range(shards)))
+    jobs = [dict(module="Val_Debugger", env={"TRACE": f}, check=False, timeout=3000, xmx="3g") for f in files]
+    jobs.append(dict(module="MC_Debugger", cfg="MC_Debugger_deep" if thorough else "MC_Debugger", workers=6, coverage=True, timeout=3000))
+    rs = vlib.tlc_parallel(jobs)
+    ck.add_tlc("MC_Debugger", rs.pop())
+    total = 0
+    for f, r in zip(files, rs):
+        ck.add_tlc("Val_Debugger", r, mc=False)
+        n = sum(1 for _ in open(f))
+        total += n
+        if r.printed("BATCH_OK"):
+            continue
+        rej = r.printed("BATCH_REJECTED")
+        if not rej:
+            raise ToolError("Val_Debugger gave no verdict:\n" + "\n".join(r.text.splitlines()[-20:]))
+        ck.mismatch({"kind": "batch-rejected", "line": rej[0][:2000], "file": f}, "parse-or-tiling")
+    ck.count(total)
+    ck.nontrivial_count += total
+    ck.traces += total
+    panics = 0
+    for f in files[:1]:
+        for line in open(f):
+            if '"PANIC"' in line or '"res":-2' in line:
+                panics += 1
+    ck.sample(head_lines(files[0], 3))
+    ck.sample([json.loads(l) for l in open(files[0]) if '"k":"dis"' in l][:1])
